@@ -156,6 +156,18 @@ def check_case(case):
             if len(run.glog()) != len(s2) or r2 != r1:
                 fail("second-solve-no-trials", {"calls_before": len(s2), "calls_after": len(run.glog()),
                                                 "result_before": r1, "result_after": result_tuple(sol2)}, comp)
+            if not base.get("refine") and not run.collapsed and len(s2) == base["lim"] and len(E) > len(s2):
+                # the run stopped on its budget: the budget is raised IN PLACE and Solve is called again - the search goes on along the
+                # same sequence (the trial sequence is a function of the problem and r only)
+                run.solver.parameters.itersLimit = base["lim"] + 3
+                run.solve()
+                s3 = seq(run)
+                acc = run.solver.method.min_delta < base["eps"]
+                L_ = min(len(s3), len(E))
+                if s3[:len(s2)] != s2 or s3[:L_] != E[:L_] or (len(s3) == len(s2) and not acc and not run.collapsed):
+                    fail("resumed-solve-continues-the-sequence", dict(first_diff(s3, E[:len(s3)]), trials_before=len(s2), trials_after=len(s3),
+                                                                      raised_budget=base["lim"] + 3, accuracy_reached=bool(acc)), comp)
+                run.solver.parameters.itersLimit = base["lim"]
             if run.trouble():
                 fail("no-internal-error", run.trouble(), comp)
         except BaseException as e:             # noqa
